@@ -169,6 +169,7 @@ macro_rules! urange_shape {
         #[kani::unwind(34)]
         #[kani::stub(alloc::vec::Vec::shrink_to_fit, vc::noop_shrink)]
         #[kani::stub(<SymRng as RandBigInt>::gen_biguint_below, $stub)]
+        #[kani::stub(crate::biguint::verif_common::symbolic, crate::biguint::verif_common::yes)]
         #[kani::stub(core::arch::x86_64::_addcarry_u64, vc::stub_addcarry)]
         #[kani::stub(core::arch::x86_64::_subborrow_u64, vc::stub_subborrow)]
         #[kani::stub(crate::biguint::addition::schoolbook_add_assign_x86_64, vc::model_add)]
@@ -190,8 +191,10 @@ macro_rules! urange_shape {
                 UniformBigUint::new_inclusive(&lo, &hi).sample(&mut rng)
             };
             kani::assert(vc::is_canonical(&r), "VERIF range sample not canonical");
-            let (e, _) = vc::ref_add::<3>(&l0, unsafe { &GH_CAND });
-            kani::assert(vc::eq_window(vc::digits(&r), &e), "VERIF range sample is not low + candidate");
+            if vc::symbolic() {
+                let (e, _) = vc::ref_add::<3>(&l0, unsafe { &GH_CAND });
+                kani::assert(vc::eq_window(vc::digits(&r), &e), "VERIF range sample is not low + candidate");
+            }
             let c = vc::ref_cmp(vc::digits(&r), &h0);
             kani::assert(vc::ref_cmp(vc::digits(&r), &l0) >= 0 && (c < 0 || ($which == 3 && c == 0)), "VERIF range sample outside the range");
             kani::cover!($which != 3 || c == 0, "reach:inclusive_upper_bound");
@@ -204,6 +207,7 @@ macro_rules! irange_shape {
         #[kani::unwind(34)]
         #[kani::stub(alloc::vec::Vec::shrink_to_fit, vc::noop_shrink)]
         #[kani::stub(<SymRng as RandBigInt>::gen_biguint_below, $stub)]
+        #[kani::stub(crate::biguint::verif_common::symbolic, crate::biguint::verif_common::yes)]
         #[kani::stub(core::arch::x86_64::_addcarry_u64, vc::stub_addcarry)]
         #[kani::stub(core::arch::x86_64::_subborrow_u64, vc::stub_subborrow)]
         #[kani::stub(crate::biguint::addition::schoolbook_add_assign_x86_64, vc::model_add)]
@@ -225,8 +229,10 @@ macro_rules! irange_shape {
             } else {
                 UniformBigInt::new_inclusive(&lo, &hi).sample(&mut rng)
             };
-            let cand = vc::ref_tc::<4>(false, unsafe { &GH_CAND });
-            check_int::<4>(&r, &add_w(&tc::<4>(&lo), &cand));
+            if vc::symbolic() {
+                let cand = vc::ref_tc::<4>(false, unsafe { &GH_CAND });
+                check_int::<4>(&r, &add_w(&tc::<4>(&lo), &cand));
+            }
             let rl = sub_w(&tc::<4>(&r), &tc::<4>(&lo));
             let hr = sub_w(&tc::<4>(&hi), &tc::<4>(&r));
             kani::assert(!is_neg_w(&rl) && !is_neg_w(&hr) && (!vc::ref_is_zero(&hr) || $which == 3), "VERIF BigInt range sample outside the range");
